@@ -319,8 +319,8 @@ def run(case):
         q = lambda s: ("q", s)
         pre = c12._prefix(libset)
         data = "input.csv" if libset == "csv" else "input.nc"
-        outs = ["out.dat", "nodir/out.dat", "nodir/deeper/out.dat", data + "/out.dat", data + "/run1/out.dat", ".", "..", "./"]  # (not the data file itself: that run would destroy its own input)
-        ins = [".", data + "/x", "nodir/" + data, "..", "nodir"]
+        outs = ["out.dat", "nodir/out.dat", "nodir/deeper/out.dat", data + "/out.dat", data + "/run1/out.dat", ".", "..", "./", "out\x00_run.dat", "sub\x00dir/out.dat"]  # (not the data file itself: that run would destroy its own input)
+        ins = [".", data + "/x", "nodir/" + data, "..", "nodir", "inputs\x00_baseline/" + data]  # (a NUL: what "\0" inside quotes decodes to)
         models = []
         for o in outs:
             for form in ("rel", "abs"):
